@@ -94,9 +94,70 @@ def lev_replay(ctx, name, chars, m, want=None):
     return ctx.mismatch(name, f'abstract counterexample ({w[0]!r}, {w[1]!r}) but the real function answers {a}')
 
 
+def ext_printer(ctx, n):
+    """est::expr: `impl BoundedDisplay for ExtFuncCall` - prints `recv.f(args)` for method-style extension functions and `f(args)` otherwise; the call may have any
+    number of arguments (the EST comes from JSON: the arity is not checked before printing), the style lookup may find either style or nothing"""
+    P = ctx.prog('core')
+    fs = [f for f in P.find(r'>::fmt$', 'cedar-policy-core/src/est/expr.rs') if len(f.args) == 3 and f.args[0][1].endswith('ExtFuncCall') and '{closure' not in f.name]
+    if len(fs) != 1:
+        raise LookupError(f'ExtFuncCall BoundedDisplay::fmt: {len(fs)} candidates')
+    f = fs[0]
+    ctx.use(f)
+    ex = ctx.new_exec('core')
+    ex.havoc_unknown = True
+    ex.max_paths = 2000
+    STYLE = z3.Int('style')           # 0 = method style, 1 = function style, 2 = not an extension function known to this build
+    W1, W2 = z3.Bool('receiver_prints'), z3.Bool('write_ok')
+    pre = [STYLE >= 0, STYLE <= 2]
+    call, name = Opaque('est::expr::ExtFuncCall', 'the call'), Opaque('smol_str::SmolStr', 'function name')
+    args = Agg('struct', '~vec', None, [Opaque('est::expr::Expr', f'argument {i}') for i in range(n)])
+    heap = {'CALL': call, 'NAME': name, 'ARGS': args, 'W': Opaque('impl Write', 'the writer')}
+    ex.stub(r'ExtFuncCall::try_components$', lambda ex_, st, c, A: ok(Agg('tuple', None, None, [Ref(0, ('local', 'NAME')), Ref(0, ('local', 'ARGS'))])), f'ExtFuncCall::try_components: the function name and {n} arguments (INVARIANT: exactly one key)')
+    ex.stub(r'Extensions::<.*>::all_available$|Extensions::<.*>::all_funcs$|Extensions::all_available$|Extensions::all_funcs$', lambda ex_, st, c, A: Opaque('extensions', 'extension functions'), 'the extension functions of this build')
+    CS = 'ast::extension::CallStyle'
+    ex.stub(r' as Iterator>::find_map::<', lambda ex_, st, c, A: [([STYLE == 0], some(Agg('variant', CS, 'MethodStyle', []))), ([STYLE == 1], some(Agg('variant', CS, 'FunctionStyle', []))), ([STYLE == 2], none())],
+            'style lookup by name: method style / function style / unknown name')
+    ex.stub(r'(^|::)maybe_with_parens::<', lambda ex_, st, c, A: [([W1], ok(UNIT)), ([z3.Not(W1)], err(Opaque('std::fmt::Error', 'fmt error')))], 'maybe_with_parens (printing the receiver): ok or a writer error')
+    ex.stub(r'slice::<impl \[.*\]>::iter$', lambda ex_, st, c, A: Opaque('slice::Iter', 'iterator over the arguments'), 'slice::iter')
+    ex.stub(r' as (itertools::)?Itertools>::join$', lambda ex_, st, c, A: Opaque('String', 'joined arguments'), 'Itertools::join')
+    ex.stub(r' as (std::fmt::)?Write>::write_fmt$', lambda ex_, st, c, A: [([W2], ok(UNIT)), ([z3.Not(W2)], err(Opaque('std::fmt::Error', 'fmt error')))], 'write!: ok or a writer error')
+
+    def index_from(ex_, st, c, A):
+        v = C.res(ex_, st, A[0])
+        r = C.res(ex_, st, A[1])
+        if not (isinstance(v, Agg) and v.name == '~vec'):
+            return None
+        start = C.res(ex_, st, r.fields[0]) if isinstance(r, Agg) and r.fields else None
+        k = ex_.concrete(start.t) if isinstance(start, IntV) else None
+        if k is None:
+            return None
+        if k > len(v.fields):
+            return Diverge(f'range start index {k} out of range for slice of length {len(v.fields)}')
+        return ex_.new_cell(st, Agg('struct', '~vec', None, list(v.fields[k:])), 'subslice')
+    ex.stub(r'<\[.*\] as (std::ops::)?Index<(std::ops::)?RangeFrom<usize>>>::index$', index_from, '&s[k..] (out of range = panic)')
+    C.install(ex)
+    outs = ex.run(f, [Ref(0, ('local', 'CALL')), Ref(0, ('local', 'W')), Opaque('Option<usize>', 'depth limit')], heap=heap, pre=pre)
+    ctx.absorb(ex)
+    nm = f'EST printer of an extension call[{n} arguments]'
+    ctx.panic_summary(nm, outs, ex, pre, replay=lambda m: printer_replay(ctx, nm, n, m.eval(STYLE, model_completion=True).as_long()))
+    rets = [o for o in outs if o.kind == 'ret']
+    ctx.decide(f'{nm}/paths-cover', pre + [z3.Not(z3.Or([z3.And(o.pc) if o.pc else T for o in outs if o.kind in ('ret', 'panic')] or [F]))], ex=ex)
+    ctx.decide(f'{nm}/witness', pre + [z3.Or([z3.And(o.pc) if o.pc else T for o in rets] or [F])], expect='sat', ex=ex)
+
+
+def printer_replay(ctx, name, n, style):
+    fn = {0: 'isIpv4', 1: 'ip', 2: 'notAnExtensionFunction'}[style]
+    est = {'effect': 'permit', 'principal': {'op': 'All'}, 'action': {'op': 'All'}, 'resource': {'op': 'All'}, 'conditions': [{'kind': 'when', 'body': {fn: [{'Value': '1.2.3.4'}] * n}}]}
+    a = ctx.native.ask({'op': 'est_print', 'policy': est})
+    if 'panic' in a:
+        return ctx.violation(name, 'est/expr.rs: BoundedDisplay for ExtFuncCall', f'printing the JSON policy with the condition {{"{fn}": [{n} arguments]}} panics: {a["panic"][:160]}', {'op': 'est_print', 'policy': est})
+    return ctx.mismatch(name, f'abstract panic path ({n} arguments, style {style}) but printing the JSON policy gives {str(a)[:200]}')
+
+
 def families(ctx):
     L = 3 if ctx.tier == 'thorough' else 2
     fam = [(f'levenshtein {a} x {b}', lambda a=a, b=b: levenshtein(ctx, a, b)) for a, b in itertools.product(range(L + 1), repeat=2)]
     if ctx.tier != 'thorough':
         fam += [('levenshtein 3 x 1', lambda: levenshtein(ctx, 3, 1)), ('levenshtein 1 x 3', lambda: levenshtein(ctx, 1, 3))]
+    fam += [(f'EST printer of an extension call, {n} arguments', lambda n=n: ext_printer(ctx, n)) for n in (0, 1, 2, 3)]
     return fam
